@@ -207,32 +207,60 @@ def reset(ctx, c, R="R-C04-reset"):
                     "state %s.%s is reset between utterances" % (c.name, attr))
 
 
-def _read_before_reinit(prog, f, M):
-    """Attributes of M that compute_chunk (with its callees, in call order) may read
-    before re-initialising them, under the assumption that no utterance is in progress.
-    Conservative straight-line approximation over the method's first statements: an
-    attribute counts as read-first if a load of it dominates... (kept simple: loads in
-    statements preceding the first statement that re-initialises it, outside callees
-    that re-initialise it themselves)."""
+def _read_before_reinit(prog, f, M, assume=None, init=frozenset(), depth=0):
+    """Attributes of M that f (with the self-methods it calls, in call order) may read on some path - feasible under
+    ``assume`` (no utterance in progress) - before that path has re-initialised them.  Forward must-analysis on the CFG:
+    the state is the set of attributes re-initialised so far on every path to the node."""
+    assume = assume if assume is not None else {"self._started": False, "self.started": False}
+    cfg = CFG(f.node)
     s = f.params[0]
     out = set()
-    done = set()
-    for st in f.node.body:
-        loads = {x.attr for x in ast.walk(st) if astq.is_self_attr(x, s) and isinstance(x.ctx, ast.Load) and x.attr in M}
-        sub = set()
-        for x in ast.walk(st):
-            if isinstance(x, ast.Call) and isinstance(x.func, ast.Attribute) and astq.is_name(x.func.value, s):
+
+    def loads_of(st):
+        names = set()
+        if isinstance(st, (ast.FunctionDef, ast.ClassDef)):
+            return names
+        receivers = set()
+        for x in header_walk(st):
+            if isinstance(x, ast.Call) and isinstance(x.func, ast.Attribute) and x.func.attr == "fill" and astq.is_self_attr(x.func.value, s) \
+                    and x.args and isinstance(x.args[0], ast.Constant):
+                receivers.add(id(x.func.value))  # self.x.fill(c) overwrites x, it does not read it
+        for x in header_walk(st):
+            if astq.is_self_attr(x, s) and isinstance(x.ctx, ast.Load) and x.attr in M and id(x) not in receivers:
+                names.add(x.attr)
+        return names
+
+    def transfer(n, state):
+        st = cfg.stmt[n]
+        if st is None:
+            return state
+        cur = set(state)
+        # tests on the assumed flag itself are not reads of utterance state
+        flag_test = isinstance(st, ast.If) and astq.text(st.test).replace("not ", "") in assume
+        if not flag_test:
+            for a in loads_of(st):
+                if a not in cur:
+                    # `self.x = f(self.x)` style re-initialisation from itself is a read
+                    out.add(a)
+        for x in header_walk(st) if not isinstance(st, (ast.FunctionDef, ast.ClassDef)) else []:
+            if isinstance(x, ast.Call) and isinstance(x.func, ast.Attribute) and astq.is_name(x.func.value, s) and depth < 4:
                 m = prog.find_method(f.cls, x.func.attr)
-                if m is not None and not m.is_property:
-                    e, _, _ = must_reinit(prog, m, M, assume={"self._started": False, "self.started": False})
-                    sub |= e
-        re = reinit_at(prog, f, M, st) | sub
-        for a in loads:
-            if a not in done and a not in re:
-                out.add(a)
-        done |= re
-        if isinstance(st, (ast.For, ast.While, ast.If)):
-            break
+                if m is not None and not m.is_property and m is not f:
+                    out.update(_read_before_reinit(prog, m, M, assume, frozenset(cur), depth + 1))
+                    sub, _, _ = must_reinit(prog, m, M, assume, depth + 1)
+                    cur |= sub
+        cur |= reinit_at(prog, f, M, st)
+        res = frozenset(cur)
+        if isinstance(st, ast.If):
+            t = astq.text(st.test)
+            if t in assume:
+                return edges_state(T=res if assume[t] else None, F=None if assume[t] else res, default=res, exc=res)
+            if t.startswith("not ") and t[4:] in assume:
+                v = not assume[t[4:]]
+                return edges_state(T=res if v else None, F=None if v else res, default=res, exc=res)
+        return res
+
+    cfg.forward(frozenset(init), transfer, lambda a_, b_: a_ & b_, skip_exc=True)
     return out
 
 
